@@ -22,7 +22,8 @@ EXPLANATION = (
     'sensitive path search. R2.10: coverage matrix backup-guard x removal-'
     'guard. Decides that rollback runs, re-raises the same object, cannot be '
     'cut short and covers every write; exactness of the undo for every '
-    'history beyond the matrix is not decided.')
+    'history beyond the matrix is not decided.'
+    ' R2.6b: every backup gets its own slot (the counter naming backup files is read and incremented in one critical section).')
 
 EFFECTS = (DESTROY, CREATE, USER, UNKNOWN)
 
